@@ -11,7 +11,8 @@ import common
 import container as C
 from sx import Sym
 
-RULE = ("exhaustive matrix: 8 public mutators (add_block, remove_block, replace_block, five setters) and 20 public readers x 7 "
+RULE = ("exhaustive matrix: 8 public mutators (add_block, remove_block, replace_block, five setters) and 22 public readers (incl. "
+        "iterating the object completely and an iterator advanced once and kept suspended while later calls run) x 7 "
         "access modes (no context; allow_write without context, before and after a first context; read-only context; write "
         "context; context re-entered after a write context; context left by an exception), plus seeded interleavings "
         "(length<=15) of allow_write/enter/exit/mutators/readers; observed per call: raised?, file sha-256 changed?, "
@@ -23,7 +24,9 @@ ASSUMPTIONS = ["private flags are not compared, only their consequences; excepti
 READERS = [(n, True, False) for n in ["blocks", "get_block_type", "get_block_index", "getitem", "data3D", "force_and_torque",
                                       "force_platforms_data", "events", "emg", "calibrationData", "has_data3D", "has_force_and_torque",
                                       "has_force_platforms_data", "has_events", "has_emg", "repr"]] + \
-          [("eq", True, True), ("nBytes", False, False), ("len", False, True), ("copy", False, False)]
+          [("eq", True, True), ("nBytes", False, False), ("len", False, True), ("copy", False, False),
+           # iteration over the object itself: completely, and an iterator advanced once and then kept alive (suspended)
+           ("iterate", True, False), ("iter-held", True, False)]
 # setters that evaluate a has_* property first (which provides a context of its own when outside one)
 IMPLICIT_MUTATORS = {"force_and_torque", "force_platforms_data", "events", "emg"}
 MUTATORS = ["add", "remove", "replace", "set:data3D", "set:force_and_torque", "set:force_platforms_data", "set:events", "set:emg"]
@@ -38,9 +41,19 @@ MODES = {
 }
 
 
-def do_reader(t, name, d):
+def do_reader(t, name, d, held=None):
     from basictdf.tdfBlock import BlockType
     from basictdf import Tdf
+    if name == "iterate":
+        n = 0
+        for _ in t:
+            n += 1
+        return n
+    if name == "iter-held":
+        it = iter(t)
+        if held is not None:
+            held.append(it)          # stays referenced (suspended, not exhausted) until the trace ends
+        return next(it)
     if name == "blocks":
         return t.blocks
     if name == "get_block_type":
@@ -77,6 +90,7 @@ class Trace:
         self.t = Tdf(self.path)
         self.wd = wd
         self.rng = rng
+        self.held = []
         self.cmds = [[Sym("mode.init"), start]]
         self.obs = []
         self.now = C.T0 + 5000
@@ -119,7 +133,7 @@ class Trace:
         elif kind == "read":
             name, impl, needs = op[1], op[2], op[3]
             try:
-                do_reader(self.t, name, self.wd)
+                do_reader(self.t, name, self.wd, self.held)
             except Exception as e:
                 raised = e
             if impl and not self.in_ctx and not (needs and not self.entered_once):
@@ -147,6 +161,7 @@ class Trace:
                              kind=kind, after=after))
 
     def close(self):
+        self.held.clear()
         if self.in_ctx:
             try:
                 self.t.__exit__(None, None, None)
